@@ -60,6 +60,14 @@ Theorem c08_scan_only_unverified : forall unv tip start fin x,
   In x (scan unv tip start fin) -> exists h, start <= h <= fin /\ In x (unv h).
 Proof. exact scan_only_unverified. Qed.
 
+(* exactly: submitted <-> stored-but-unverified at a height of the range with no
+   height between the start of the range and its own, above the tip, that has none *)
+Theorem c08_scan_exact : forall unv tip start fin x,
+  In x (scan unv tip start fin) <->
+  exists h, start <= h <= fin /\ In x (unv h) /\
+            (forall m, start <= m <= h -> tip < m -> unv m <> []).
+Proof. exact scan_exact. Qed.
+
 (* "stored but not yet verified blocks are picked up" is false as stated: behind a
    height above the tip that holds only processed blocks the scan stops (known
    finding C08-recovery-stops-at-first-empty-height-above-tip) *)
@@ -74,4 +82,5 @@ Redirect "out/C08.c08_example" Print Assumptions c08_example.
 Redirect "out/C08.c08_scan_reaches" Print Assumptions c08_scan_reaches.
 Redirect "out/C08.c08_scan_reaches_up_to_tip" Print Assumptions c08_scan_reaches_up_to_tip.
 Redirect "out/C08.c08_scan_only_unverified" Print Assumptions c08_scan_only_unverified.
+Redirect "out/C08.c08_scan_exact" Print Assumptions c08_scan_exact.
 Redirect "out/C08.c08_scan_gap_refuted" Print Assumptions c08_scan_gap_refuted.
